@@ -219,10 +219,45 @@ def run_slice(res, rng, tier, budget_s=25):
     res.slices["hash"] = {"keys": n, "comparisons": ncmp, "mismatches": len(mism), "wall_s": round(time.time() - t0, 1)}
 
 
+def huge_keys(res):
+    """keys of 2^32 + k bytes (search only — 4 GiB of lazily allocated zero pages, a few seconds each): lengths that do not fit 32 bits.
+    Expected value in closed form: every block of an all-zero key mixes to 0, so h = (seed ^ n·m) · m^nblocks [· tail step] then mix."""
+    s = sk()
+    import numpy as np
+
+    m = 0x880355F21E6D1965
+    for extra in (16, 3, 46):
+        n = 2**32 + extra
+        try:
+            key = bytes(n)
+        except MemoryError:
+            res.notes.append("huge_keys: not enough memory for a 4 GiB key")
+            return
+        seed = 12345
+        nb, tail = n // 8, n % 8
+        h = (seed ^ (n * m)) & M64
+        h = (h * pow(m, nb, 1 << 64)) & M64       # h ^= mix(0) = 0 ; h *= m, nb times
+        if tail:
+            h = (h * m) & M64                      # tail value 0 mixes to 0 as well
+        want = _mix(h)
+        got = int(s.fasthash64(key, np.uint64(seed)))
+        res.evaluations += 1
+        res.count("huge_keys")
+        if got != want:
+            res.oracle_failures.append({"what": f"fasthash64 of {n} zero bytes (a length beyond 32 bits) with seed {seed} = {got}, the reference algorithm gives {want}",
+                                        "fn": "fasthash64", "huge_len": n, "seed": seed, "key": "", "signature": "C11:huge-key"})
+        del key
+
+
 def rerun(fail):
     s = sk()
     import numpy as np
 
+    if "huge_len" in fail:
+        from core import Result
+        r = Result("C11", "replay", 0)
+        huge_keys(r)
+        return bool(r.oracle_failures)
     key = bytes.fromhex(fail["key"])
     seed = fail["seed"]
     fn = fail["fn"]
